@@ -3,6 +3,7 @@ package core
 import (
 	"encoding/json"
 	"fmt"
+	"math"
 	"strings"
 	"unicode/utf8"
 
@@ -316,6 +317,10 @@ func (bc *BaseContract) QueryChannelTransferTo(id string) (*pb.CCTransfer, error
 func (bc *BaseContract) QueryChannelTransfersFrom(pageSize int64, bookmark string) (*pb.CCTransfers, error) {
 	if pageSize <= 0 {
 		return nil, cctransfer.ErrPageSizeLessOrEqZero
+	}
+	// the ledger API takes an int32: a larger page size means "as many as possible", not its low bits
+	if pageSize > math.MaxInt32 {
+		pageSize = math.MaxInt32
 	}
 
 	prefix := cctransfer.CCFromTransfers()
